@@ -497,7 +497,7 @@ fn main() {
     match args.tier {
         Tier::Quick => {
             for n in 1..=3 {
-                exhaustive(&mut rep, &args, n, &pr, 4, "exh-pr", &mut ci); // 31^3 = 29 791
+                exhaustive(&mut rep, &args, n, &pr, 5, "exh-pr", &mut ci); // 63^3 = 250 047
                 exhaustive(&mut rep, &args, n, &pre, 3, "exh-pre", &mut ci); // 40^3 = 64 000
             }
             exhaustive(&mut rep, &args, 4, &pr, 3, "exh-pr", &mut ci); // 15^4 = 50 625
@@ -519,7 +519,7 @@ fn main() {
     }
 
     // (2) random: 4 sources x <= 12 steps (and a share with 2..6 sources)
-    for i in 0..args.budget(150_000, 3_000_000, 30) {
+    for i in 0..args.budget(400_000, 3_000_000, 30) {
         ci += 1;
         let n = if i % 3 == 0 { 2 + rng.below(5) } else { 4 };
         let case = random_case(&mut rng, n, 12);
